@@ -134,7 +134,12 @@ def run(ctx):
     if not any(len(s["case"]["tys"]) == 3 for s in states) or not any(len(s["case"]["tys"]) == 1 for s in states) or \
             {s["case"]["op"] for s in states} != set(OPS):
         raise tlc.MachineryError("vacuity: single / composite keys or some operation not enumerated")
-    env = B.MapperEnv(4)
+    try:
+        env = B.MapperEnv(4)
+    except Exception as ex:          # noqa: a mutated mapper may already fail when a connection is registered
+        ctx.violation("registering a connection with cqlengine raised %s: %s" % (type(ex).__name__, str(ex)[:300]),
+                      replay={"setup": "register_connection"}, signature="setup:register_connection:raised")
+        return
     by_signature = {}
     try:
         n = statements = 0
@@ -162,9 +167,12 @@ def run(ctx):
         rejected = 0
         for bad in (good[:-1], good[::-1], []):
             rejected += bool(compare(env, {"case": probe["case"], "out": {"rk": {"t": "bytes", "b": tuple(bad)}}}))
-        if rejected != 3:
+        # when the code under test already diverges from the definition the probe case may itself be a failing one
+        # (or the corrupted expectation may be what the broken code returns); the self-test is then not meaningful and
+        # must not mask the violation with a machinery failure
+        if rejected != 3 and not by_signature:
             raise tlc.MachineryError("binding self-test failed: %d of 3 corrupted expectations detected" % rejected)
-        ctx.note("binding_selftest", {"corrupted_rejected": rejected})
+        ctx.note("binding_selftest", {"corrupted_rejected": rejected, "meaningful": not by_signature})
     finally:
         env.close()
     ctx.assumptions += ["only the bounded key type alphabet (see level_note); component encodings written out in Bind.tla",
